@@ -2,7 +2,7 @@
 (* Bounded case spaces for Annotate.tla.  Every set is a constant-level set of abstract cases;
    the configs Annotate_*.cfg substitute one of them for Cases, AnnotateCases.tla exports the very
    same sets for replay against the real scanner. *)
-EXTENDS Annotate
+EXTENDS Annotate, Json, IOUtils, SequencesExt
 
 \* ---- annotation records -----------------------------------------------------------------------
 Upd(f, vals) == {[EmptyAnn EXCEPT ![f] = x] : x \in vals}
@@ -26,15 +26,15 @@ ClosureBare   == Upd("closure", {0})
 
 Single == TransferItems \cup DirItems \cup NullItems \cup MiscItems \cup ArrayItems \cup ETItems
           \cup TypeItems \cup ScopeItems \cup ClosureBare
-Pairs  == {Merge(a, b) : a \in Single, b \in Single}
-AnnsDir == {Merge(d, b) : d \in DirItems \cup {EmptyAnn}, b \in Single \cup {EmptyAnn}}
+Pairs_(u) == {Merge(a, b) : a \in Single, b \in Single}
+AnnsDir_(u) == {Merge(d, b) : d \in DirItems \cup {EmptyAnn}, b \in Single \cup {EmptyAnn}}
 \* the nullability group in depth: every subset of {nullable, optional, allow-none} x not x direction x transfer
-NullSets == {Merge(Merge(a, b), Merge(c, n)) : a \in Upd("nullable", {TRUE, FALSE}), b \in Upd("optional", {TRUE, FALSE}),
+NullSets_(u) == {Merge(Merge(a, b), Merge(c, n)) : a \in Upd("nullable", {TRUE, FALSE}), b \in Upd("optional", {TRUE, FALSE}),
                                              c \in Upd("allownone", {TRUE, FALSE}), n \in Upd("notn", {"", "nullable", "optional"})}
-Null3  == {Merge(Merge(x, d), t) : x \in NullSets, d \in DirItems \cup {EmptyAnn},
+Null3_(u) == {Merge(Merge(x, d), t) : x \in NullSets_(0), d \in DirItems \cup {EmptyAnn},
                                    t \in Upd("transfer", {"", "full"}) \cup Upd("type", {"utf8"}) \cup {[EmptyAnn EXCEPT !.array = TRUE]}}
 \* containers in depth: transfer x array options x element-type x type
-Cont3  == {Merge(Merge(t, a), Merge(e, y)) : t \in TransferItems \cup {EmptyAnn}, a \in ArrayItems \cup {EmptyAnn},
+Cont3_(u) == {Merge(Merge(t, a), Merge(e, y)) : t \in TransferItems \cup {EmptyAnn}, a \in ArrayItems \cup {EmptyAnn},
                                              e \in ETItems \cup {EmptyAnn}, y \in Upd("type", {"", "utf8", "GLib.List(utf8)"})}
 
 \* ---- C declarations ------------------------------------------------------------------------------
@@ -63,15 +63,15 @@ RetCase(s, a)         == [kind |-> "function", throws |-> FALSE, ret |-> V0(s, a
 
 \* ---- single values ------------------------------------------------------------------------------------
 \* every declaration x (direction) x one annotation, as parameter of a function / method / callback type and as return
-S_Single(u) == {ParamCase(k, s, a) : k \in {"function", "method", "callback"}, s \in Decls(AllKinds), a \in AnnsDir}
-             \cup {RetCase(s, a) : s \in Decls(AllKinds) \cup {[ck |-> "void", ptr |-> 0, const |-> FALSE]}, a \in AnnsDir}
+S_Single(u) == {ParamCase(k, s, a) : k \in {"function", "method", "callback"}, s \in Decls(AllKinds), a \in AnnsDir_(0)}
+             \cup {RetCase(s, a) : s \in Decls(AllKinds) \cup {[ck |-> "void", ptr |-> 0, const |-> FALSE]}, a \in AnnsDir_(0)}
 \* all pairs of annotations
-S_PairsParam(u) == {ParamCase("function", s, a) : s \in Decls(ReprKinds), a \in Pairs}
-S_PairsRet(u) == {RetCase(s, a) : s \in Decls(ReprKinds), a \in Pairs}
-S_Null3(u) == {ParamCase(k, s, a) : k \in {"function"}, s \in Decls(ReprKinds), a \in Null3}
-                 \cup {RetCase(s, a) : s \in Decls(ReprKinds), a \in {x \in Null3 : x.dir = ""}}
-S_Cont3(u) == {ParamCase("function", s, a) : s \in Decls({"char", "int", "gpointer", "recordT", "GList", "GHashTable", "GPtrArray", "GByteArray"}), a \in Cont3}
-                 \cup {RetCase(s, a) : s \in Decls({"char", "int", "GList", "GHashTable", "GPtrArray"}), a \in Cont3}
+S_PairsParam(u) == {ParamCase("function", s, a) : s \in Decls(ReprKinds), a \in Pairs_(0)}
+S_PairsRet(u) == {RetCase(s, a) : s \in Decls(ReprKinds), a \in Pairs_(0)}
+S_Null3(u) == {ParamCase(k, s, a) : k \in {"function"}, s \in Decls(ReprKinds), a \in Null3_(0)}
+                 \cup {RetCase(s, a) : s \in Decls(ReprKinds), a \in {x \in Null3_(0) : x.dir = ""}}
+S_Cont3(u) == {ParamCase("function", s, a) : s \in Decls({"char", "int", "gpointer", "recordT", "GList", "GHashTable", "GPtrArray", "GByteArray"}), a \in Cont3_(0)}
+                 \cup {RetCase(s, a) : s \in Decls({"char", "int", "GList", "GHashTable", "GPtrArray"}), a \in Cont3_(0)}
 
 \* ---- relations between parameters ------------------------------------------------------------------------
 \* (array length=): array value (a parameter or the return value) + a length parameter placed before or after it,
@@ -113,17 +113,39 @@ S_OnData(u) ==
   {[kind |-> k, throws |-> FALSE, ret |-> VoidRet, params |-> <<Plain("callbackT", 0), WithAnn(dt, a), Plain("destroyNotify", 0)>>] :
      k \in Kinds3, dt \in DataDecls, a \in ClosureBare \cup Upd("closure", {1, 3}) \cup Upd("destroy", {3}) \cup ScopeItems \cup NullItems}
 
+\* ---- quick tier: one case per (declaration kind, direction, annotation) triple -----------------------------
+\* the variant (pointer depth, const, position: parameter of a function / method / callback type, or return value)
+\* rotates with the seed
+Env(k, d) == IF k \in DOMAIN IOEnv THEN IOEnv[k] ELSE d
+Seed      == atoi(Env("C01_SEED", "0"))
+SampleMod == atoi(Env("C01_MOD", "1"))
+Positions == {"function", "method", "callback", "ret"}
+Variants(ck) == SetToSeq({<<pos, s>> : pos \in Positions, s \in Decls({ck})})
+S_Strat(u) ==
+  LET anns == SetToSeq(AnnsDir_(0))
+  IN {LET vs == Variants(ck)
+          p  == vs[((j + Seed) % Len(vs)) + 1]
+      IN IF p[1] = "ret" THEN RetCase(p[2], anns[j]) ELSE ParamCase(p[1], p[2], anns[j]) : ck \in AllKinds, j \in 1..Len(anns)}
+
 \* TLC evaluates every zero-arity constant definition at start-up: the case spaces are therefore operators
 \* (dummy argument) and the configuration selects one of them through the constant Which
 CONSTANT Which
-MC_Cases == CASE Which = "single" -> S_Single(0)
-              [] Which = "pairsparam" -> S_PairsParam(0)
-              [] Which = "pairsret" -> S_PairsRet(0)
-              [] Which = "null3" -> S_Null3(0)
-              [] Which = "cont3" -> S_Cont3(0)
-              [] Which = "lenparam" -> S_LenParam(0)
-              [] Which = "lenret" -> S_LenRet(0)
-              [] Which = "callbacks" -> S_Callbacks(0)
-              [] Which = "ondata" -> S_OnData(0)
-              [] OTHER -> {}
+FullSet == CASE Which = "single" -> S_Single(0)
+             [] Which = "strat" -> S_Strat(0)
+             [] Which = "pairsparam" -> S_PairsParam(0)
+             [] Which = "pairsret" -> S_PairsRet(0)
+             [] Which = "null3" -> S_Null3(0)
+             [] Which = "cont3" -> S_Cont3(0)
+             [] Which = "lenparam" -> S_LenParam(0)
+             [] Which = "lenret" -> S_LenRet(0)
+             [] Which = "callbacks" -> S_Callbacks(0)
+             [] Which = "ondata" -> S_OnData(0)
+             [] OTHER -> {}
+\* C01_MOD=m keeps every m-th case (rotating with the seed): the quick tier model-checks and replays a sample of
+\* the large spaces, the thorough tier all of them
+MC_Cases == IF SampleMod <= 1 THEN FullSet
+            ELSE LET q == SetToSeq(FullSet) IN {q[j] : j \in {x \in 1..Len(q) : (x + Seed) % SampleMod = 0}}
+
+\* A.4: the harness replays exactly the cases TLC counted
+ASSUME ("C01_CASES_FILE" \notin DOMAIN IOEnv) \/ ndJsonSerialize(IOEnv.C01_CASES_FILE, SetToSeq(MC_Cases))
 =============================================================================
